@@ -15,6 +15,14 @@ DESIGN_REF = "6/C15"
 from bindcases import *  # noqa: F401,F403,E402
 from bindcases import _UNIS  # noqa: F401,E402
 
+# XmlContext.is_binding_model tests `module.__name__.startswith(models_package)`: with the shared
+# scratch-module names vp_models_1 / vp_models_10 … a context would also see the classes of later
+# universes (and the exported xsi index would go stale).  Equal-length names cannot be prefixes of
+# each other.
+import itertools  # noqa: E402
+
+B._counter = itertools.count(1_000_000 + next(B._counter))
+
 DOCUMENTED = {"ParserError", "ConverterError", "XmlContextError", "LEAK:XmlHandlerError"}
 FEATURES_JSON = None
 
